@@ -55,7 +55,7 @@ def main : IO Unit := do
   | some (.list [.atom "model", .atom "serial"]) =>
     loop h out () Serial.driverStep ()
   | some (.list [.atom "model", .atom "repr"]) =>
-    loop h out ({} : Repr.World Unit) Repr.driverStep {}
+    loop h out ({} : Repr.Font Unit) Repr.driverStepF {}
   | some (.list [.atom "model", .atom "conv"]) =>
     loop h out ({} : Conv.DState) Conv.driverStep {}
   | some (.list [.atom "model", .atom "setters"]) =>
